@@ -42,8 +42,11 @@ RULE = ("cases = (task, generated input(s) / unzipped tdms fixtures, task "
         "write, group/attribute/dataset creation, object copy, link, "
         "delete, file open, close, unlink, rename) x fault kind (OSError "
         "instead of operation k | os._exit before k | for open/close/unlink/"
-        "rename/copy/link also: operation k performed, then OSError); plus "
-        "SIGKILL at random times of unmodified runs and tasks failing on "
+        "rename/copy/link also: operation k performed, then OSError | for "
+        "dataset writes also: half of the slice written, then OSError | an "
+        "exception out of RTDCWriter.__exit__ (rectify_metadata/"
+        "version_brand)); plus "
+        "SIGKILL / SIGTERM / SIGINT (KeyboardInterrupt) at random times of unmodified runs and tasks failing on "
         "their own (truncated input, split with a stale temporary file) - "
         "oracle only; plus generated output names for the temporary-name "
         "model. Quick runs a random sample of k per case, the structural "
@@ -341,6 +344,7 @@ def record_job(idx):
             except BaseException as e:  # noqa (dclab: BaseException subclasses)
                 viol[i] = ["check_dataset failed: %r" % (e,)]
     return dict(idx=idx, ref=d, trace=trace, kinds=kinds, details=details,
+                exit_calls=rec.exit_calls,
                 err=err, others=others, viol=viol, secs=time.time() - t0,
                 obs=observe(idx, w, ref_w=None))
 
@@ -417,19 +421,22 @@ def observe(idx, w, ref_w, ref_viol=None):
     complete], tmp=[0|1 exists], inputs_same=[bool], unexpected=[...],
     why=[...])"""
     case, lay = CASES[idx], INFO[idx]["lay"]
-    out, tmp, why = [], [], []
+    out, tmp, why, new = [], [], [], []
     for i, o in enumerate(lay["outs"]):
         p = os.path.join(w, o)
+        new.append(False)
         if not os.path.lexists(p):
             out.append(0)
         elif case["stale_out"][i] and sha(p) == lay["stale_sha"].get(i):
             out.append(2)
         elif ref_w is None:
             out.append(2 if os.path.isfile(p) else 1)
+            new[-1] = True
         else:
             d = complete_diff(p, os.path.join(ref_w, o),
                               (ref_viol or {}).get(i, []))
             out.append(2 if d is None else 1)
+            new[-1] = True
             if d is not None:
                 why.append("output %s: %s" % (o, d))
         tmp.append(1 if os.path.lexists(os.path.join(w, lay["temps"][i]))
@@ -444,7 +451,7 @@ def observe(idx, w, ref_w, ref_viol=None):
         for dp, _dn, fs in os.walk(w) for f in fs
         if os.path.relpath(os.path.join(dp, f), w) not in allowed)
     return dict(out=out, tmp=tmp, inputs_same=same, unexpected=unexpected,
-                why=why)
+                why=why, new=new)
 
 
 def fault_job(job):
@@ -464,7 +471,11 @@ def fault_job(job):
             os.dup2(devnull, 1)
             os.dup2(devnull, 2)
             ct.install()
-            rec = ct.Recorder(w, fault_at=k, fault_kind=kind)
+            if kind == "exit-raise":
+                rec = ct.Recorder(w)
+                rec.exit_fault_at = k
+            else:
+                rec = ct.Recorder(w, fault_at=k, fault_kind=kind)
             ct.set_recorder(rec)
             exc = None
             try:
@@ -477,6 +488,7 @@ def fault_job(job):
             ct.set_recorder(None)
             with open(os.path.join(d, "child.json"), "w") as fd:
                 json.dump(dict(fired=rec.fired, exc=exc, nops=len(rec.ops),
+                               fault_pos=rec.fault_pos,
                                after=[(a[0], os.path.relpath(a[1], w),
                                        os.path.relpath(a[2], w) if a[2]
                                        else None)
@@ -525,6 +537,7 @@ def prepare(run, cases):
                               kinds=r["kinds"], err=r["err"],
                               viol=r["viol"], details=r["details"],
                               others=r["others"], ref_obs=r["obs"],
+                              exit_calls=r["exit_calls"],
                               secs=r["secs"])
     # the workers were forked before the references existed: restart them
     _POOL.close()
@@ -664,6 +677,16 @@ def judge(run, idx, res):
     if obs["unexpected"]:
         fails.append("files outside the output/temporary names appeared: %s"
                      % obs["unexpected"][:4])
+    if case["task"] == "split":
+        # parts are released in order: the new results present form a prefix
+        # 0..j-1; every later part is not at its output path and (once
+        # written) exists under its temporary name only
+        newf = obs.get("new", [])
+        j = 0
+        while j < len(newf) and newf[j]:
+            j += 1
+        if any(newf[j:]):
+            fails.append("split parts present out of order: %s" % newf)
     if fails:
         desc = ("%s of %s at operation %d (%s): %s; %s" % (
             kind, case["task"], k, op_desc(info, k, kind), "; ".join(fails),
@@ -673,8 +696,11 @@ def judge(run, idx, res):
 
 
 def op_desc(info, k, kind=None):
-    if kind == "sigkill":
-        return "SIGKILL after %.1f%% of the fault-free duration" % (k / 10.0)
+    if kind in ("sigkill", "sigint", "sigterm"):
+        return "%s after %.1f%% of the fault-free duration" % (
+            kind.upper(), k / 10.0)
+    if kind == "exit-raise":
+        return "call %d of RTDCWriter.rectify_metadata/version_brand" % k
     if 0 <= k < len(info["details"]):
         return "%s %s %s" % tuple(info["details"][k])
     return "past the end"
@@ -739,10 +765,11 @@ def _run(run):
             else:
                 run.count("strict-shape-changed")
                 run.notes.append(
-                    "informational: the %s trace of case %d is accepted by "
-                    "the protocol but no longer has the exact shape recorded "
-                    "in Model/C10.v (table in the header)" % (case["task"],
-                                                              idx))
+                    "WARNING: the %s trace of case %d is accepted by the "
+                    "union protocol (obligation holds) but has left the "
+                    "strict language of its task (Model.accepts_task: setup, "
+                    "create mode, number of append rounds)" % (case["task"],
+                                                               idx))
         cd = case_desc(idx, -1, "none")
         run.record_case(cd, True)
         run.count("task:%s" % case["task"])
@@ -827,13 +854,24 @@ def _run(run):
         first += [(idx, k, kind) for k in must
                   for kind in KINDS + ("raise-after",)]
         second += [(idx, k, kind) for k in extra for kind in KINDS]
+        # "disk full": half of the slice is written, then OSError
+        part = [k for k in list(must) + list(extra)
+                if info["kinds"][k] == "dset-write"
+                and (run.thorough or run.rng.random() < 0.5)]
+        run.rng.shuffle(part)
+        first += [(idx, k, "partial") for k in part[:6]]
+        second += [(idx, k, "partial") for k in part[6:]]
+        # an exception out of RTDCWriter.__exit__ (rectify_metadata /
+        # version_brand)
+        first += [(idx, j, "exit-raise")
+                  for j in range(info.get("exit_calls", 0))]
     # structural positions of all cases first, then the rest, each in random
     # order: whatever part is done when the time is up is a fair sample
     run.rng.shuffle(first)
     run.rng.shuffle(second)
     jobs = first + second
     limit = float(os.environ.get("VERIF_C10_FAULT_SECS",
-                                 "840" if run.thorough else "35"))
+                                 "840" if run.thorough else "30"))
     t_start = time.time()
     results = []
     import multiprocessing
@@ -868,6 +906,16 @@ def _run(run):
     for res in results:
         idx, k, kind = res["job"]
         nin = len(INFO[idx]["lay"]["ins"])
+        if kind == "exit-raise":
+            # the model sees it as a failure of the operation that would
+            # have come next
+            pos = res["child"].get("fault_pos")
+            rendered.append("(%d, %d, %d, 1)" % (
+                idx, nin, pos if pos is not None else 10 ** 7))
+            continue
+        if kind == "partial":
+            rendered.append("(%d, %d, %d, 2)" % (idx, nin, k))
+            continue
         # an operation that is performed and then reported as failed is, for
         # the model, a failure of the next operation without partial effect
         rendered.append("(%d, %d, %d, %d)" % (
@@ -887,7 +935,8 @@ def _run(run):
         cd = case_desc(idx, k, kind)
         run.record_case(cd, fired, sample=(k > 5 and len(run.samples) < 3))
         run.count("fault:%s" % kind)
-        run.count("fault-at:%s" % info["kinds"][k])
+        run.count("fault-at:%s" % (info["kinds"][k] if kind != "exit-raise"
+                                   else "writer-exit"))
         run.count("child-exit:%s" % res["code"])
         judge(run, idx, res)
         nout = len(info["lay"]["outs"])
@@ -925,7 +974,10 @@ def sigkill_job(job):
     """Run the task unmodified in a child and SIGKILL it after a fraction of
     its fault-free duration - possibly in the middle of an HDF5 call."""
     import signal
-    idx, permille = job
+    idx, permille = job[0], job[1]
+    signame = job[2] if len(job) > 2 else "sigkill"
+    signum = dict(sigkill=signal.SIGKILL, sigint=signal.SIGINT,
+                  sigterm=signal.SIGTERM)[signame]
     case, info = CASES[idx], INFO[idx]
     d = _copy_template(idx)
     w = os.path.join(d, "w")
@@ -936,6 +988,10 @@ def sigkill_job(job):
     if pid == 0:
         code = 5
         try:
+            # SIGINT -> KeyboardInterrupt unwinds through the with blocks;
+            # SIGTERM has its default action (the CLI installs no handler)
+            signal.signal(signal.SIGINT, signal.default_int_handler)
+            signal.signal(signal.SIGTERM, signal.SIG_DFL)
             devnull = os.open(os.devnull, os.O_WRONLY)
             os.dup2(devnull, 1)
             os.dup2(devnull, 2)
@@ -948,21 +1004,22 @@ def sigkill_job(job):
             os._exit(code)
     time.sleep(max(0.0, info["secs"] * permille / 1000.0))
     try:
-        os.kill(pid, signal.SIGKILL)
+        os.kill(pid, signum)
     except ProcessLookupError:
         pass
     _, status = os.waitpid(pid, 0)
     code = os.waitstatus_to_exitcode(status)
     obs = observe(idx, w, os.path.join(info["ref"], "w"), info["viol"])
     shutil.rmtree(d, ignore_errors=True)
-    return dict(job=(idx, permille, "sigkill"), code=code, child={}, obs=obs,
+    return dict(job=(idx, permille, signame), code=code, child={}, obs=obs,
                 secs=time.time() - t0)
 
 
 def sigkill_runs(run):
-    n = 480 if run.thorough else 48
+    n = 600 if run.thorough else 60
     ok = [i for i, info in enumerate(INFO) if info["err"] is None]
-    jobs = [(run.rng.choice(ok), run.rng.randint(0, 1300)) for _ in range(n)]
+    jobs = [(run.rng.choice(ok), run.rng.randint(0, 1300),
+             ("sigkill", "sigint", "sigterm")[q % 3]) for q in range(n)]
     for res in pmap("sigkill_job", jobs):
         if "crash" in res:
             run.broken.append(("harness(C10)", "sigkill run crashed: %s" %
@@ -970,9 +1027,9 @@ def sigkill_runs(run):
             continue
         idx, permille, kind = res["job"]
         cd = case_desc(idx, permille, kind)
-        run.record_case(cd, res["code"] == -9, sample=False)
-        run.count("fault:sigkill")
-        run.count("sigkill-exit:%s" % res["code"])
+        run.record_case(cd, res["code"] != 0, sample=False)
+        run.count("fault:%s" % kind)
+        run.count("%s-exit:%s" % (kind, res["code"]))
         judge(run, idx, res)
 
 
@@ -1302,8 +1359,8 @@ def replay(payload):
             print("final state:", info["ref_obs"])
             bad = info["err"] is not None
         else:
-            if case["kind"] == "sigkill":
-                res = sigkill_job((0, case["k"]))
+            if case["kind"] in ("sigkill", "sigint", "sigterm"):
+                res = sigkill_job((0, case["k"], case["kind"]))
             else:
                 res = fault_job((0, case["k"], case["kind"]))
             print("fault: %s at operation %d (%s)" % (
